@@ -15,7 +15,8 @@ PID = "C17"
 LEVEL = "exploration"
 RULE = (
     "three case families. (eq) a grammar-generated describing function built as DAG and as AsyncDAG from the same "
-    "IR, same arguments: values, node-observation multisets and the setup entries recorded in .results must be equal "
+    "IR (debug nodes included), same arguments, each called twice on the same instance with RUN_DEBUG_NODES toggled in "
+    "between: values, node-observation multisets and the setup entries recorded in .results must be equal "
     "and equal to the reference. (gather) k in 2..6 concurrent awaits (asyncio.gather) of ONE AsyncDAG with distinct "
     "argument tuples, with its setup nodes run beforehand or (half of the cases) not: each await returns the reference value for its own arguments and "
     "the pooled observation multiset is the sum of the k reference multisets. (live) AsyncDAGs whose pooled nodes are "
@@ -44,31 +45,66 @@ def _setup_results(b: prog.Built) -> Dict[str, Any]:
 
 
 def _eq(case: Dict[str, Any], res: CaseResult) -> None:
+    """Both flavours built once from the same IR, then called twice on the SAME instances: with RUN_DEBUG_NODES off
+    and then on (an instance must not freeze the first call's view of the configuration)."""
+    import tawazi
+
     P, args = case["prog"], case["argsets"][0]
-    ref_val, ref_exc, R = pc.reference(P, args)
-    if ref_exc is not None:
-        res.skipped = "reference-raises"
-        return
-    outs = {}
-    for flavour in (False, True):
-        cfg = dict(case["config"], **{"async": flavour})
-        val, exc, ex, b = pc.run_config(P, args, cfg)
-        tag = f" [{'AsyncDAG' if flavour else 'DAG'} mc={cfg.get('mc')}]"
-        if exc is not None:
-            res.viol("error", f"raised {type(exc).__name__}: {str(exc)[:300]}" + tag)
+    refs = {}
+    for dbg in (False, True):
+        rv, re_, R = pc.reference(P, args, run_debug=dbg)
+        if re_ is not None:
+            res.skipped = "reference-raises"
             return
-        if val != ref_val or type(val) is not type(ref_val):
-            res.viol("value", f"returned {val!r}, reference {ref_val!r}" + tag)
-        got, want = pc.obs_counter(prog.observations(ex)), pc.obs_counter(R.obs)
-        if got != want:
-            res.viol("observations", f"nodes saw {sorted((got - want).items())} instead of {sorted((want - got).items())}" + tag)
-        outs[flavour] = (val, _setup_results(b))
-    if outs[False][1] != outs[True][1]:
-        res.viol("setup-results", f"setup results recorded by DAG {outs[False][1]} != AsyncDAG {outs[True][1]}")
-    res.evals = 2
+        refs[dbg] = (rv, R)
+    cfg = case["config"]
+    built = {}
+    old_dbg = tawazi.cfg.RUN_DEBUG_NODES
+    try:
+        for flavour in (False, True):
+            try:
+                built[flavour] = prog.build(P, is_async=flavour, mc=cfg.get("mc", 1))
+            except BaseException as e:  # noqa: BLE001
+                res.viol("error", f"building raised {type(e).__name__}: {str(e)[:300]} [{'AsyncDAG' if flavour else 'DAG'}]")
+                return
+        outs: Dict[Any, Any] = {}
+        order = [False, True] if not case.get("debug_first") else [True, False]
+        for rnd, dbg in enumerate(order):
+            tawazi.cfg.RUN_DEBUG_NODES = dbg
+            ref_val, R = refs[dbg]
+            for flavour in (False, True):
+                b = built[flavour]
+                tag = f" [{'AsyncDAG' if flavour else 'DAG'} mc={cfg.get('mc')} call {rnd + 1} on the same instance, RUN_DEBUG_NODES={dbg}]"
+                ex = sched.Exec("free", sleeps=cfg.get("sleeps"))
+                a = [dec(x) for x in args]
+                try:
+                    with ex:
+                        val = asyncio.run(b.dag(*a)) if flavour else b.dag(*a)
+                except BaseException as e:  # noqa: BLE001
+                    if isinstance(e, KeyboardInterrupt):
+                        raise
+                    res.viol("error", f"raised {type(e).__name__}: {str(e)[:300]}" + tag)
+                    return
+                if val != ref_val or type(val) is not type(ref_val):
+                    res.viol("value", f"returned {val!r}, reference {ref_val!r}" + tag)
+                got = pc.obs_counter(prog.observations(ex))
+                # setup sites run in the first call only
+                want = pc.obs_counter([o for o in R.obs if not (rnd > 0 and o[1] in outs.get("setup_sites", set()))])
+                if got != want:
+                    res.viol("observations", f"nodes saw {sorted((got - want).items())[:3]} instead of {sorted((want - got).items())[:3]}" + tag)
+                outs[(flavour, rnd)] = (val, _setup_results(b))
+            outs["setup_sites"] = {s_["site"] for s_, spec in prog.all_calls(P) if spec.get("setup")}
+        for rnd in range(2):
+            if outs[(False, rnd)][1] != outs[(True, rnd)][1]:
+                res.viol("setup-results", f"setup results recorded by DAG {outs[(False, rnd)][1]} != AsyncDAG {outs[(True, rnd)][1]}")
+    finally:
+        tawazi.cfg.RUN_DEBUG_NODES = old_dbg
+    res.evals = 4
     nres = {f.get("res", "thread") for f in P["fns"].values()}
     res.nontrivial = len(prog.sites_of(P)) >= 3 and len(nres) >= 2
     res.cls("eq")
+    if "debug-node" in case.get("features", []):
+        res.cls("eq-with-debug-nodes")
 
 
 def _gather(case: Dict[str, Any], res: CaseResult) -> None:
@@ -228,7 +264,7 @@ def cases(draw: Any, tier: str) -> Dict[str, Any]:
     if fam == "live":
         return {"family": "live", "live": draw(st.sampled_from(["event", "barrier", "fail"])), "k": draw(st.integers(2, 4)),
                 "config": {"mc": draw(st.integers(1, 3))}, "fail_res": draw(st.sampled_from(["async-thread", "thread", "main-thread"]))}
-    c = draw(richgen.rich_case(depth=1, max_stmts=7, flag_w=5))
+    c = draw(richgen.rich_case(depth=1, max_stmts=7, flag_w=5, debug_w=1))
     P = c["prog"]
     sites = prog.sites_of(P)
     cfg = {"mc": draw(st.integers(1, 4)), "mode": "free",
@@ -245,7 +281,7 @@ def cases(draw: Any, tier: str) -> Dict[str, Any]:
                 else:
                     a.append(prog.enc(draw(st.sampled_from(richgen.ANY_POOL))))
             argsets.append(a)
-    c.update(family=fam, argsets=argsets, config=cfg)
+    c.update(family=fam, argsets=argsets, config=cfg, debug_first=draw(st.booleans()))
     if fam == "gather":
         c["setup_first"] = draw(st.booleans())
     return c
